@@ -363,7 +363,11 @@ fn run_transport(
     let mut clients_to_remove = Vec::new();
     let mut metadata = HashMap::new();
     let mut next_token = START_TOKEN;
+    #[cfg(metrics_verif)]
+    metrics::verif::point("tcp.start.pre", &[buffer_size.map_or(-1, |b| b as i64)]);
     let mut buffered_pmsgs = VecDeque::with_capacity(buffer_limit);
+    #[cfg(metrics_verif)]
+    metrics::verif::point("tcp.start.post", &[]);
 
     loop {
         let _span = trace_span!("transport");
@@ -385,6 +389,8 @@ fn run_transport(
         for event in events.iter() {
             match event.token() {
                 WAKER => {
+                    #[cfg(metrics_verif)]
+                    metrics::verif::point("tcp.wake.post", &[]);
                     // Read until we hit our buffer limit or there are no more messages.
                     let _mrxspan = trace_span!("metrics in");
                     loop {
@@ -407,6 +413,8 @@ fn run_transport(
 
                         match msg {
                             Event::Metadata(key, metric_type, unit, desc) => {
+                                #[cfg(metrics_verif)]
+                                metrics::verif::point("tcp.rx.meta.post", &[metadata.contains_key(&key) as i64]);
                                 let entry = metadata
                                     .entry(key)
                                     .or_insert_with(|| (metric_type, None, None));
@@ -415,6 +423,8 @@ fn run_transport(
                                 *dentry = Some(desc);
                             }
                             Event::Metric(key, value) => {
+                                #[cfg(metrics_verif)]
+                                metrics::verif::point("tcp.rx.metric.post", &[verif_op_id(&value)]);
                                 match convert_metric_to_protobuf_encoded(key, value) {
                                     Ok(pmsg) => buffered_pmsgs.push_back(pmsg),
                                     Err(e) => error!(error = ?e, "error encoding metric"),
@@ -433,10 +443,16 @@ fn run_transport(
                     for (token, (conn, wbuf, msgs)) in clients.iter_mut() {
                         // Before we potentially do any draining, try and drive the connection to
                         // make sure space is freed up as much as possible.
+                        #[cfg(metrics_verif)]
+                        let token: &Token = token;
+                        #[cfg(metrics_verif)]
+                        metrics::verif::point("tcp.drive.pre", &[token.0 as i64, 1]);
                         let done = drive_connection(conn, wbuf, msgs);
                         if done {
                             clients_to_remove.push(*token);
                             state.decrement_clients();
+                            #[cfg(metrics_verif)]
+                            metrics::verif::point("tcp.dec.post", &[token.0 as i64, state.client_count.load(Ordering::Acquire) as i64, state.should_send() as i64]);
                             continue;
                         }
 
@@ -454,17 +470,25 @@ fn run_transport(
                         let to_drain = buffered_pmsgs.len().saturating_sub(available);
                         let _ = msgs.drain(0..to_drain);
                         msgs.extend(buffered_pmsgs.iter().take(buffer_limit).cloned());
+                        #[cfg(metrics_verif)]
+                        metrics::verif::point("tcp.fanout.post", &[token.0 as i64, to_drain as i64, msgs.len() as i64]);
 
+                        #[cfg(metrics_verif)]
+                        metrics::verif::point("tcp.drive.pre", &[token.0 as i64, 2]);
                         let done = drive_connection(conn, wbuf, msgs);
                         if done {
                             clients_to_remove.push(*token);
                             state.decrement_clients();
+                            #[cfg(metrics_verif)]
+                            metrics::verif::point("tcp.dec.post", &[token.0 as i64, state.client_count.load(Ordering::Acquire) as i64, state.should_send() as i64]);
                         }
                     }
 
                     // We've pushed each metric into each client's internal list, so we can clear
                     // ourselves and continue on.
                     buffered_pmsgs.clear();
+                    #[cfg(metrics_verif)]
+                    metrics::verif::point("tcp.fanout.done.post", &[]);
 
                     // Remove any clients that were done.
                     for token in clients_to_remove.drain(..) {
@@ -472,6 +496,8 @@ fn run_transport(
                             trace!(?conn, ?token, "removing client");
                             clients.remove(&token);
                             state.decrement_clients();
+                            #[cfg(metrics_verif)]
+                            metrics::verif::point("tcp.remove.post", &[token.0 as i64, state.client_count.load(Ordering::Acquire) as i64, state.should_send() as i64]);
                         }
                     }
                 }
@@ -490,6 +516,8 @@ fn run_transport(
 
                                 // Start tracking them, and enqueue all of the metadata.
                                 let metadata = generate_metadata_messages(&metadata);
+                                #[cfg(metrics_verif)]
+                                metrics::verif::point("tcp.accept.post", &[token.0 as i64, state.client_count.load(Ordering::Acquire) as i64, metadata.len() as i64, state.should_send() as i64]);
                                 clients
                                     .insert(token, (conn, None, metadata))
                                     .ok_or(())
@@ -506,11 +534,15 @@ fn run_transport(
                 token => {
                     if event.is_writable() {
                         if let Some((conn, wbuf, msgs)) = clients.get_mut(&token) {
+                            #[cfg(metrics_verif)]
+                            metrics::verif::point("tcp.drive.pre", &[token.0 as i64, 3]);
                             let done = drive_connection(conn, wbuf, msgs);
                             if done {
                                 trace!(?conn, ?token, "removing client");
                                 clients.remove(&token);
                                 state.decrement_clients();
+                                #[cfg(metrics_verif)]
+                                metrics::verif::point("tcp.remove.post", &[token.0 as i64, state.client_count.load(Ordering::Acquire) as i64, state.should_send() as i64]);
                             }
                         }
                     }
@@ -549,14 +581,20 @@ fn drive_connection(
                 Some(msg) => msg,
                 None => {
                     trace!("client write queue drained");
+                    #[cfg(metrics_verif)]
+                    metrics::verif::point("tcp.idle.post", &[]);
                     return false;
                 }
             },
         };
+        #[cfg(metrics_verif)]
+        metrics::verif::point("tcp.write.pre", &[buf.len() as i64]);
 
         match conn.write(&buf) {
             // Zero write = client closed their connection, so remove 'em.
             Ok(0) => {
+                #[cfg(metrics_verif)]
+                metrics::verif::point("tcp.write.zero.post", &[]);
                 trace!(?conn, "zero write, closing client");
                 return true;
             }
@@ -565,6 +603,8 @@ fn drive_connection(
                 // chunk of the buffer.  TODO: do we need to reregister ourselves to track writable
                 // status??
                 let remaining = buf.split_off(n);
+                #[cfg(metrics_verif)]
+                metrics::verif::point("tcp.write.partial.post", &[n as i64, remaining.len() as i64]);
                 trace!(?conn, written = n, remaining = remaining.len(), "partial write");
                 wbuf.replace(remaining);
                 return false;
@@ -573,6 +613,8 @@ fn drive_connection(
             Err(ref e) if would_block(e) => return false,
             Err(ref e) if interrupted(e) => return drive_connection(conn, wbuf, msgs),
             Err(e) => {
+                #[cfg(metrics_verif)]
+                metrics::verif::point("tcp.write.err.post", &[]);
                 error!(?conn, error = %e, "write failed");
                 return true;
             }
@@ -625,6 +667,15 @@ fn convert_metric_to_protobuf_encoded(
     let mut buf = Vec::new();
     event.encode_length_delimited(&mut buf)?;
     Ok(Bytes::from(buf))
+}
+
+/// Verification hook helper: the integer carried by a counter increment (used as a frame id), -1 otherwise.
+#[cfg(metrics_verif)]
+fn verif_op_id(op: &MetricOperation) -> i64 {
+    match op {
+        MetricOperation::IncrementCounter(v) => *v as i64,
+        _ => -1,
+    }
 }
 
 fn next(current: &mut Token) -> Token {
